@@ -843,8 +843,7 @@ def task_version_hb(pr, repo, ex=None):
         r1b = ex.call(ex.getattr(v, 'get_hydrogen_bond_parameters'), [a1, a2], {})
         ctx.oblige('VD: H-bond parameters come from the parameters of THIS Version object - a second object built from other '
                    'parameters in the same process returns its own maximum and cut-offs, and the first keeps its own',
-                   r2[0] is dmax2 and r2[1][0] is not None and r1b[0] is dmax and
-                   to_bool(Sym(to_bool(r2[1][0] == R('c0_2'))) if isinstance(r2[1][0] == R('c0_2'), Sym) else (r2[1][0] == R('c0_2'))) is not False
+                   r2[0] is dmax2 and r1b[0] is dmax and isinstance(r2[1][0], Sym) and isinstance(r1b[1][0], Sym)
                    and And(r2[1][0] == R('c0_2'), r1b[1][0] == R('c0')))
         # ('COO', ...): an atom that a later group set-up relabelled (the OXT of a C-terminus whose carbonyl O is missing)
         for bt, gt, table in (('BBC', 'HIS', co), ('BBN', 'COO', nh), ('BBC', 'COO', None), ('BBN', 'HIS', None), ('COO', 'HIS', None),
